@@ -190,6 +190,13 @@ def rule_keys(model):
                     '-size': f'{e} + 1 - {s}'}[kind]
             n += 1
             ok = lin_eq(st.value, parse_expr(want))
+            if not ok:
+                # through copies made by an inlined helper
+                # (pstart__helper3 = pstart)
+                from ..linear import single_assignments
+                sub_ = {k: v for k, v in single_assignments(
+                    model, fi).items() if k not in (s, e)}
+                ok = lin_eq(st.value, parse_expr(want), sub_)
             r.instance(fi.where, st, 'ok' if ok else 'MISMATCH')
             if not ok:
                 r.finding(fi.where, st, f'{key} is computed as '
@@ -207,14 +214,26 @@ def _pair_for(model, fi, st):
     key = st.targets[0].slice.value
     if key.startswith('sequence-step'):
         return ('start', 'end')
+    # nearest preceding unpack in the order of the statements (line
+    # numbers are not used: statements of an inlined helper keep theirs)
     best = None
     for n in own_nodes(fi.node):
-        if isinstance(n, ast.Assign) and isinstance(n.targets[0], ast.Tuple)\
-                and isinstance(n.value, ast.Call) and \
-                'DT_InSV:opt' in model.callee_names(n.value, fi) and \
-                n.lineno <= st.lineno:
-            if best is None or n.lineno > best.lineno:
+        if n is st:
+            break
+        if not (isinstance(n, ast.Assign) and isinstance(
+                n.targets[0], ast.Tuple)):
+            continue
+        v_ = n.value
+        if isinstance(v_, ast.Name):
+            # batch = opt(...); pstart, pend, psize = batch
+            ds_ = [d for d in model.local_defs(fi, v_.id)
+                   if isinstance(d, ast.AST)]
+            if ds_ and all(isinstance(d, ast.Call) and 'DT_InSV:opt' in
+                           model.callee_names(d, fi) for d in ds_):
                 best = n
+        elif isinstance(v_, ast.Call) and \
+                'DT_InSV:opt' in model.callee_names(v_, fi):
+            best = n
     if best is None:
         return None
     elts = best.targets[0].elts
